@@ -380,7 +380,7 @@ pub fn trace_string(t: &[(u32, Vec<(u32, i32)>)]) -> (usize, usize, String) {
 }
 
 /// data kinds for the match finders
-fn mf_data(r: &mut Rng, kind: u64, dict: usize, len: usize) -> Vec<u8> {
+pub fn mf_data(r: &mut Rng, kind: u64, dict: usize, len: usize) -> Vec<u8> {
     match kind % 7 {
         0 => r.bytes(len),
         1 => vec![r.next() as u8; len],
